@@ -220,6 +220,7 @@ orc_compiler_c64x_c_assemble (OrcCompiler *compiler)
   int align_var;
 
   align_var = get_align_var (compiler);
+  if (align_var < 0) return;
 
   switch (compiler->max_var_size) {
     case 1:
